@@ -16,7 +16,15 @@ NON_EVAL = ["LoadYAML", "LoadMetadata", "LoadWithoutEval", "UpdateSpec", "GetDet
 REQUIRED_PATHS = ["env", "params", "logDir", "steps[].dir", "steps[].command", "steps[].script", "steps[].stdout", "steps[].stderr",
                   "steps[].output", "preconditions[].condition", "preconditions[].expected", "steps[].preconditions[].condition",
                   "handlerOn.exit.command", "handlerOn.failure.script", "smtp.host", "smtp.password", "errorMail.to", "infoMail.from",
-                  "steps[].executor", "functions[].command", "functions[].params", "steps[].call.args", "steps[].env", "steps[].run"]
+                  "steps[].executor", "functions[].command", "functions[].params", "functions[].name", "steps[].call.args", "steps[].call.function",
+                  "handlerOn.exit.call.args", "handlerOn.exit.call.function", "handlerOn.failure.call.args", "steps[].env", "steps[].run", "steps[].params"]
+# paths through which a function call is assembled (parseFuncCall: function template + argument values -> Step.CmdWithArgs);
+# nothing evaluates them at load time, so their controls are: the text arrives in the loaded DAG, and STARTING the DAG
+# (evaluating load + the command split of scheduler.Node.setupExec) does run it
+CALL_PATHS = ["functions[].command", "steps[].call.args", "handlerOn.exit.call.args", "handlerOn.success.call.args",
+              "handlerOn.failure.call.args", "handlerOn.cancel.call.args"]
+RUNTIME_PATHS = CALL_PATHS + ["steps[].command", "handlerOn.exit.command"]
+NO_VAR_SHAPES = ["dq-only", "two-commands"]        # shapes without a `$…` word: a function template stays well-formed
 
 
 REQUIRED_SHAPES = ["bare", "named-bare", "dq-start", "dq-mid", "dq-end", "named-dq", "multi", "multi-dq-last", "embedded", "sq", "indented", "dollar-paren"]
@@ -40,7 +48,10 @@ def run(chk, replay):
     chk.trusted = common.TRUSTED_COMMON + [
         "effects other than process execution and os.Setenv (e.g. file writes by a loader) are outside the table; the canaries observe "
         "exactly: a file created by the planted command, and the diff of os.Environ()",
-        "go/parser reading internal/dag/definition.go in the harness to enumerate the plantable fields"]
+        "go/parser reading internal/dag/definition.go in the harness to enumerate the plantable fields",
+        "util.SplitCommandWithParse (go-shellwords with ParseBacktick) is listed as an exec site by the extractor; a `call:` step's command "
+        "line is assembled by parseFuncCall (function template + argument values) — its canaries sit in functions[].command after the first "
+        "word and in call.args of steps and handlers"]
     chk.assumptions = ["the table covers builder.go, parser.go, loader.go (the files the loader's build path lives in); condition.go's "
                        "substituteCommands call is run-time only (EvalConditions) and is exercised by the canaries in preconditions",
                        "DAGStore.UpdateSpec/GetDetails/List reach the loader only through LoadYAML/LoadWithoutEval/LoadMetadata (skeleton tie)"]
@@ -83,7 +94,7 @@ def run(chk, replay):
         missing = [p for p in REQUIRED_PATHS if p not in have]
         chk.oblige("field enumeration covers env, params, logDir, dir, command, script, stdout, stderr, output, preconditions, handlers, "
                    "mail/smtp, executor config, functions", not missing, "missing: %s" % missing)
-        entries = list(ENTRY_MAP)
+        entries = list(ENTRY_MAP) + ["StartSplit"]
     cases = []
     for e in entries:
         for p in plants:
@@ -91,8 +102,11 @@ def run(chk, replay):
                 # quick tier: the DAGStore methods go through the same three loaders (skeleton tie) and Load is the positive control; they get every shape
                 # in params / env / logDir and three representative shapes elsewhere
                 if (chk.tier == "quick" and not replay and e in ("UpdateSpec", "GetDetails", "List", "Load")
-                        and p.get("root") not in ("Params", "Env", "LogDir") and sh not in ("bare", "dq-mid", "named-dq")):
+                        and p.get("root") not in ("Params", "Env", "LogDir") and p["path"] not in CALL_PATHS
+                        and sh not in ("bare", "dq-mid", "named-dq")):
                     continue
+                if e == "StartSplit" and not replay and p["path"] not in RUNTIME_PATHS:
+                    continue        # run-time positive control only where a command line is assembled
                 cases.append({"id": "%s|%s|%s|%s" % (e, p["path"], p["variant"], sh), "mode": "canary", "entry": e, "path": p["path"],
                               "variant": p["variant"], "root": p.get("root", ""), "shape": sh})
     # every random choice from the seeded PRNG: the order of the cases (effects must not depend on it)
@@ -101,7 +115,7 @@ def run(chk, replay):
     if outs is None:
         return
     chk.oblige("harness-run:canary (every case answered)", len(outs) == len(cases), "%d/%d" % (len(outs), len(cases)))
-    observed, outcomes, live = {}, {}, {}
+    observed, outcomes, live, reached, started = {}, {}, {}, {}, {}
     byid = {c["id"]: c for c in cases}
     for o in outs:
         c = byid[o["id"]]
@@ -111,6 +125,13 @@ def run(chk, replay):
             kinds.add("exec")
         if o.get("envdiff"):
             kinds.add("setenv")
+        if c["entry"] == "StartSplit":
+            # positive control outside the loader (scheduler.Node.setupExec): not part of the effect matrix
+            if o.get("fired"):
+                started.setdefault(c["path"], set()).add(c.get("shape"))
+            continue
+        if o.get("reached") and c["entry"] in ("LoadYAML", "LoadWithoutEval", "GetDetails"):
+            reached.setdefault((c["entry"], c["path"]), set()).add(c.get("shape"))
         observed.setdefault((c["entry"], c["path"], c["root"]), set()).update(kinds)
         outcomes[o.get("outcome", "?").split(":")[0]] = outcomes.get(o.get("outcome", "?").split(":")[0], 0) + 1
         chk.nontrivial.add((c["entry"], c["path"], c["variant"], c.get("shape")))
@@ -137,6 +158,26 @@ def run(chk, replay):
         for path, need in LIVE_UNDER_LOAD.items():
             miss = sorted(set(need) - live.get(path, set()))
             chk.oblige("positive-control: under dag.Load the canary shapes %s fire in `%s`" % (",".join(need), path), not miss, "not firing: %s" % miss)
+        # function calls: the plant is live (the text arrives in the accepted DAG through the non-evaluating loaders) …
+        for path in CALL_PATHS:
+            need = set(NO_VAR_SHAPES) if path == "functions[].command" else set(BACKTICK_SHAPES) | {"dollar-paren"}
+            for e in ("LoadYAML", "LoadWithoutEval", "GetDetails"):
+                miss = sorted(need - reached.get((e, path), set()))
+                if miss:
+                    chk.oblige("positive-control: canary in `%s` arrives in the DAG loaded by %s" % (path, e), False, "shapes not arriving: %s" % miss)
+        chk.oblige("positive-control: canaries in function templates and call arguments (steps and the four handlers) arrive in the "
+                   "step's command line of the DAG loaded by LoadYAML / LoadWithoutEval / GetDetails",
+                   all(reached.get((e, path)) for path in CALL_PATHS for e in ("LoadYAML", "LoadWithoutEval", "GetDetails")),
+                   str({"%s:%s" % k: len(v) for k, v in sorted(reached.items()) if k[1] in CALL_PATHS}))
+        # … and starting the DAG (evaluating load + node.setupExec's command split) does run it
+        for path in RUNTIME_PATHS:
+            # the shapes go-shellwords' back-tick / $(…) parsing runs in that position (observed behaviour of the run-time split:
+            # a substitution inside double quotes is not run for an argument; the first word of a command line is the program)
+            need = ({"two-commands", "indented"} if path == "functions[].command" else
+                    {"bare", "named-bare", "multi", "embedded", "indented", "two-commands", "dollar-paren"} if path.endswith("call.args") else
+                    {"dq-mid", "dq-end", "named-dq", "multi", "two-commands"})
+            miss = sorted(need - started.get(path, set()))
+            chk.oblige("positive-control: starting the DAG runs the command planted in `%s`" % path, not miss, "shapes not firing: %s" % miss)
     # ---- correspondence: observed (entry, field) matrix = model reach
     dis = 0
     for (e, p, root), kinds in sorted(observed.items()):
